@@ -251,15 +251,16 @@ def formula_of(c):
                 parts.append(lit_value(v))
         return 'CHOOSE(' + ','.join([spec_text(c['i'])] + parts) + ')', vs, {}
     at, vs, rs = array_term(c)
+    sp = c.get('asep', ',')          # the separator the call's arguments are written with
     if k == 'index':
         r, cc = c['r'], c['c']
         if cc == 'omit':
             if r == 'omit':
                 f = 'INDEX(%s)' % at
             else:
-                f = 'INDEX(%s,%s)' % (at, spec_text(r))
+                f = 'INDEX(%s%s%s)' % (at, sp, spec_text(r))
         else:
-            f = 'INDEX(%s,%s,%s)' % (at, spec_text(r), spec_text(cc))
+            f = 'INDEX(%s%s%s%s%s)' % (at, sp, spec_text(r), sp, spec_text(cc))
         return f, vs, rs
     x = c['x']
     if c.get('src', 'var') == 'lit':
@@ -270,10 +271,10 @@ def formula_of(c):
         vs['X'] = x
     if k == 'match':
         if c['t'] == 'omit':
-            return 'MATCH(%s,%s)' % (xt, at), vs, rs
-        return 'MATCH(%s,%s,%s)' % (xt, at, c['t']), vs, rs
+            return 'MATCH(%s%s%s)' % (xt, sp, at), vs, rs
+        return 'MATCH(%s%s%s%s%s)' % (xt, sp, at, sp, c['t']), vs, rs
     if k == 'im':
-        return 'INDEX(%s,MATCH(%s,%s,0))' % (at, xt, at), vs, rs
+        return 'INDEX(%s%sMATCH(%s%s%s%s0))' % (at, sp, xt, sp, at, sp), vs, rs
     raise ValueError(k)
 
 
@@ -488,6 +489,39 @@ def cases(rng, ctx):
                    ('a', []), (5, []), (True, [1, 2]), (1, [True])]:
         for t in (0, 1, -1):
             out.append({'kind': 'match', 'src': 'var', 'arr': arr, 'x': x, 't': t})
+
+    # ---- the same calls written with ';' or '\\' between the arguments (an omitted row or column is then an empty slot between
+    #      two of those): every fifth INDEX case with a blank slot, every twentieth other formula case
+    extra = []
+    for i, c in enumerate(out):
+        if c['kind'] not in ('index', 'match', 'im') or c.get('pre'):
+            continue
+        if c.get('src') == 'lit' and c.get('sep', ',') != ',':
+            continue
+        blank = c['kind'] == 'index' and 'blank' in (c['r'], c['c'])
+        if (blank and i % 5 == 0) or (not blank and i % 20 == 0):
+            d = dict(c)
+            d['asep'] = rng.choice([';', '\\'])
+            if d.get('src') == 'lit':
+                # a literal keeps a separator of its own kind: commas inside, ';' or '\\' between the arguments
+                if shape(d['arr'])[0]:
+                    continue
+            extra.append(d)
+    out += extra
+    for arr, r, cc in [([[1, 2, 3], [4, 5, 6], [7, 8, 9]], 'blank', 2), ([[1, 2, 3], [4, 5, 6]], 'blank', 3), ([[1, 2, 3], [4, 5, 6], [7, 8, 9]], 2, 'blank')]:
+        for sp in (',', ';', '\\'):
+            for src in ('var', 'range'):
+                out.append({'kind': 'index', 'src': src, 'arr': arr, 'r': r, 'c': cc, 'asep': sp})
+    # ---- whole numbers beyond 2^53 (ids): written in the formula or handed over by the host, they are themselves
+    B = 2 ** 53
+    ids = [B - 9, B - 8, B + 1, B + 3, 9999999999999999, 12345678901234567]
+    for x in ids:
+        for src in ('var', 'lit'):
+            out.append({'kind': 'match', 'src': src, 'arr': ids, 'x': x, 't': 0})
+            out.append({'kind': 'im', 'src': src, 'arr': ids, 'x': x})
+    for i in range(1, len(ids) + 1):
+        out.append({'kind': 'index', 'src': 'lit', 'arr': ids, 'r': i, 'c': 'omit', 'sep': ','})
+        out.append({'kind': 'choose', 'vals': ids, 'i': i})
 
     # ---- direct calls on odd arguments (model comparison only)
     vals = [None, True, False, 0, 1, 2, -1, 1.5, 2.0, '1', '2', 'abc', '', [], [1, 2, 3], ['abc', 'de'], [[1, 2], [3, 4]],
